@@ -1,7 +1,7 @@
 (* C01 — Two endpoints built on the library interoperate, even across transport loss.
    Statements only.  Nothing else may be added to this file. *)
 From MQ Require Import Base.Prelude Alloc.Alloc Alloc.AllocProofs Framing.Framing Framing.FramingProofs Conn.Types Conn.ConnRecord Conn.Step
-                       Corr.ConnTrace Conn.Scope Conn.Session Conn.IdsQuota Conn.Own Conn.OwnFrame Conn.OwnStep Conn.Run Conn.PairQos Conn.PairQos0 Conn.PairQos5 Conn.PairSeq Conn.PairSeq5 Conn.PairConc Conn.PairBi Conn.PairConc5 Conn.PairBi5 Conn.PairManual Conn.SessInv Conn.PairLoss Conn.PairLossAcc Conn.PairLossS.
+                       Corr.ConnTrace Conn.Scope Conn.Session Conn.IdsQuota Conn.Own Conn.OwnFrame Conn.OwnStep Conn.Run Conn.PairQos Conn.PairQos0 Conn.PairQos5 Conn.PairSeq Conn.PairSeq5 Conn.PairConc Conn.PairBi Conn.PairConc5 Conn.PairBi5 Conn.PairManual Conn.PairManual5 Conn.SessInv Conn.PairLoss Conn.PairLossAcc Conn.PairLossS.
 
 (* what the pair property rests on, each proved for ALL states of one endpoint:
    (i) delivery in any fragmentation is the same byte stream (C09) *)
@@ -257,6 +257,45 @@ Theorem C01_pair_qos2_completes_manual : forall gs gr cs cr p,
 Proof. exact qos2_completes_manual. Qed.
 Print Assumptions C01_pair_qos2_completes_manual.
 
+(* the same for v5.0 (Conn/PairManual5.v), with both Receive Maximum accounts: the receiver's slot stays taken from the
+   PUBLISH until ITS APPLICATION sends PUBACK (QoS 1) or PUBCOMP (QoS 2) and is then free again; the sender's count is back
+   where it was after the final acknowledgement *)
+Theorem C01_pair_qos1_completes_manual_v5 : forall gs gr cs cr p,
+  OWN gs cs -> ready5 cs -> v5_pub p 1 -> fresh cs (k_pid p) -> is_used cs (k_pid p) = true ->
+  size_ok cs p = true -> c_ta_send cs = None -> quota_left cs ->
+  ready5 cr -> c_auto_pub cr = false -> recv_quota_left cr -> ack_fits gr cr ->
+  asc 1 (g_idmax gs) (c_publish_recv cr) -> mem (k_pid p) (c_publish_recv cr) = false -> 1 <= k_pid p <= g_idmax gs ->
+  exists cs1 e1 cr1 e2 cr2 e3 cs2 e4,
+    send_publish_v5 gs cs p = Ok (cs1, e1) /\ sends e1 = [p] /\ errors e1 = [] /\
+    deliver gr cr p = Ok (cr1, e2) /\ notifies e2 = [p] /\ sends e2 = [] /\ errors e2 = [] /\
+    c_publish_recv cr1 = ins (k_pid p) (c_publish_recv cr) /\
+    step gr cr1 (OSend (puback5_for gr p)) = Ok (cr2, e3, []) /\ sends e3 = [puback5_for gr p] /\ errors e3 = [] /\ notifies e3 = [] /\
+    KF cr2 cr /\ c_qos2 cr2 = c_qos2 cr /\ c_publish_recv cr2 = c_publish_recv cr /\
+    deliver gs cs1 (puback5_for gr p) = Ok (cs2, e4) /\ released e4 = [k_pid p] /\ sends e4 = [] /\ errors e4 = [] /\
+    OWN gs cs2 /\ KF cs2 cs /\ is_used cs2 (k_pid p) = false /\ fresh cs2 (k_pid p) /\ c_send_count cs2 = c_send_count cs.
+Proof. exact qos1_completes_manual5. Qed.
+Print Assumptions C01_pair_qos1_completes_manual_v5.
+
+Theorem C01_pair_qos2_completes_manual_v5 : forall gs gr cs cr p,
+  OWN gs cs -> ready5 cs -> c_auto_pub cs = false -> v5_pub p 2 -> fresh cs (k_pid p) -> is_used cs (k_pid p) = true ->
+  size_ok cs p = true -> c_ta_send cs = None -> quota_left cs -> ack_fits gs cs ->
+  ready5 cr -> c_auto_pub cr = false -> recv_quota_left cr -> ack_fits gr cr ->
+  asc 1 (g_idmax gs) (c_qos2 cr) -> c_publish_recv cr = c_qos2 cr -> mem (k_pid p) (c_qos2 cr) = false -> 1 <= k_pid p <= g_idmax gs ->
+  exists cs1 e1 cr1 e2 cr2 e3 cs2 e4 cs3 e5 cr3 e6 cr4 e7 cs4 e8,
+    send_publish_v5 gs cs p = Ok (cs1, e1) /\ sends e1 = [p] /\ errors e1 = [] /\
+    deliver gr cr p = Ok (cr1, e2) /\ notifies e2 = [p] /\ sends e2 = [] /\ errors e2 = [] /\
+    step gr cr1 (OSend (pubrec5_for gr p)) = Ok (cr2, e3, []) /\ sends e3 = [pubrec5_for gr p] /\ errors e3 = [] /\ notifies e3 = [] /\
+    c_publish_recv cr2 = ins (k_pid p) (c_publish_recv cr) /\
+    deliver gs cs1 (pubrec5_for gr p) = Ok (cs2, e4) /\ notifies e4 = [pubrec5_for gr p] /\ sends e4 = [] /\ errors e4 = [] /\ released e4 = [] /\
+    step gs cs2 (OSend (pubrel5_for gs p)) = Ok (cs3, e5, []) /\ sends e5 = [pubrel5_for gs p] /\ errors e5 = [] /\ notifies e5 = [] /\
+    deliver gr cr2 (pubrel5_for gs p) = Ok (cr3, e6) /\ notifies e6 = [pubrel5_for gs p] /\ sends e6 = [] /\ errors e6 = [] /\
+    step gr cr3 (OSend (pubcomp5_for gr p)) = Ok (cr4, e7, []) /\ sends e7 = [pubcomp5_for gr p] /\ errors e7 = [] /\ notifies e7 = [] /\
+    KF cr4 cr /\ c_qos2 cr4 = c_qos2 cr /\ c_publish_recv cr4 = c_publish_recv cr /\
+    deliver gs cs3 (pubcomp5_for gr p) = Ok (cs4, e8) /\ released e8 = [k_pid p] /\ sends e8 = [] /\ errors e8 = [] /\
+    OWN gs cs4 /\ KF cs4 cs /\ is_used cs4 (k_pid p) = false /\ fresh cs4 (k_pid p) /\ c_send_count cs4 = c_send_count cs.
+Proof. exact qos2_completes_manual5. Qed.
+Print Assumptions C01_pair_qos2_completes_manual_v5.
+
 (* BOTH DIRECTIONS AT ONCE, v5.0 (Conn/PairBi5.v): each side publishes within the other side's Receive Maximum and Maximum
    Packet Size while it receives and acknowledges; the invariant is the v5.0 one-direction invariant [inv5] twice.  For
    EVERY schedule nothing fails and no limit is overrun; once the links have drained each application has been notified
@@ -439,6 +478,34 @@ Proof.
      ORecv [32;2;0;0] (PROk (mkPkt 2 V311 0 0 false false [] None 0 0 4 true 0 false 0 None None None None None)); OAcquire]) as HO.
   assert (H1 : 1 <= g_idmax (mkCfg RClient 65535 2)) by (cbn; lia).
   assert (H2 : V311 <> VUndet) by discriminate.
+  specialize (HO H1 H2). clear H1 H2.
+  match type of HO with ?A -> _ => assert (HQ : A) by (vm_compute; repeat split; try reflexivity; try discriminate; intros; try discriminate) end.
+  specialize (HO HQ). clear HQ. revert HO. vm_compute. intro HO. split; [exact HO|]. repeat split; try reflexivity; try discriminate.
+Qed.
+
+Example C01_pair_manual_v5_nonvacuous :
+  let gs := mkCfg RClient 65535 2 in
+  let gr := mkCfg RServer 65535 2 in
+  let cn := mkPkt 1 V50 0 0 false false [] None 0 0 24 false 0 true 0 None (Some 3) (Some 100) None None in
+  let ca := mkPkt 2 V50 0 0 false false [] None 0 0 11 true 0 false 0 None (Some 2) (Some 50) None None in
+  let ops_s := [OSend cn; ORecv [32;9;0;0;6;33;0;2;39;0;0;0;50] (PROk ca); OAcquire] in
+  let ops_r := [ORecv [16;13;0;4;77;81;84;84;5;2;0;0;0;0;0] (PROk cn); OSend ca] in
+  let p2 := mkPkt 3 V50 1 2 false false [116] None 0 0 8 false 0 false 0 None None None None None in
+  match run_state gs (conn_new gs V50) ops_s, run_state gr (conn_new gr V50) ops_r with
+  | Some cs, Some cr =>
+      OWN gs cs /\ ready5 cs /\ c_auto_pub cs = false /\ v5_pub p2 2 /\ fresh cs 1 /\ is_used cs 1 = true /\
+      size_ok cs p2 = true /\ c_ta_send cs = None /\ quota_left cs /\ ack_fits gs cs /\ c_send_max cs = Some 2 /\
+      ready5 cr /\ c_auto_pub cr = false /\ recv_quota_left cr /\ ack_fits gr cr /\ c_recv_max cr = Some 2 /\
+      asc 1 (g_idmax gs) (c_qos2 cr) /\ c_publish_recv cr = c_qos2 cr /\ mem 1 (c_qos2 cr) = false /\ 1 <= 1 <= g_idmax gs
+  | _, _ => False
+  end.
+Proof.
+  cbv zeta.
+  pose proof (fresh_OWN_invariant (mkCfg RClient 65535 2) V50
+    [OSend (mkPkt 1 V50 0 0 false false [] None 0 0 24 false 0 true 0 None (Some 3) (Some 100) None None);
+     ORecv [32;9;0;0;6;33;0;2;39;0;0;0;50] (PROk (mkPkt 2 V50 0 0 false false [] None 0 0 11 true 0 false 0 None (Some 2) (Some 50) None None)); OAcquire]) as HO.
+  assert (H1 : 1 <= g_idmax (mkCfg RClient 65535 2)) by (cbn; lia).
+  assert (H2 : V50 <> VUndet) by discriminate.
   specialize (HO H1 H2). clear H1 H2.
   match type of HO with ?A -> _ => assert (HQ : A) by (vm_compute; repeat split; try reflexivity; try discriminate; intros; try discriminate) end.
   specialize (HO HQ). clear HQ. revert HO. vm_compute. intro HO. split; [exact HO|]. repeat split; try reflexivity; try discriminate.
